@@ -46,6 +46,11 @@ class PyModel:
         """integer value of an Int/Bool"""
         return z3.If(L.is_Bool(v), z3.If(Val.b(v), 1, 0), Val.i(v))
 
+    def num_int(self, ex, v):
+        i = self.num_value_int(v)
+        ex.small_int_axioms(i)
+        return i
+
     def index_like(self, v):
         return z3.Or(L.is_Int(v), L.is_Bool(v))
 
@@ -441,6 +446,8 @@ class PyModel:
 
     def _unary_neg(self, ex, v):
         if ex.branch(z3.Or(L.is_Int(v), L.is_Bool(v)), 'neg-int'):
+            ex.small_int_axioms(self.num_value_int(v))
+            ex.small_int_axioms(-self.num_value_int(v))
             r = L.IntV(-self.num_value_int(v))
             ex.assume(L.int_digits(-self.num_value_int(v)) == L.int_digits(self.num_value_int(v)))
             return r
@@ -584,8 +591,8 @@ class PyModel:
                 ex.raise_('TypeError', 'unsupported operand for float')
             ex.may_raise(['ArithmeticError'], 'float error')
             return L.FloatV(f)
-        ia = self.num_value_int(a)
-        ib = self.num_value_int(b)
+        ia = self.num_int(ex, a)
+        ib = self.num_int(ex, b)
         if op == '+':
             r = ia + ib
             ex.assume(L.int_digits(r) <= z3.If(L.int_digits(ia) > L.int_digits(ib), L.int_digits(ia), L.int_digits(ib)) + 1)
